@@ -19,6 +19,14 @@ proof fn __canary_prelude()
 """
 
 
+HONEST_CANARY = """
+// vacuity guard (appended by the driver): honest() must NOT be refutable from the builder contracts' honest-mode clauses
+fn __canary_honest<F: RichField + Extendable<D>, const D: usize>(b: &mut CircuitBuilder<F, D>, x: Target)
+    ensures honest() ==> false,
+{ let z = b.zero(); let (lo, hi) = b.split_low_high(x, 32, 64); b.connect(lo, z); b.range_check(hi, 3); let bits = b.split_le(x, 10); let e = b.is_equal(lo, hi); let s = b.select(e, lo, hi); }
+"""
+
+
 class Undecided(Exception):
     pass
 
@@ -68,6 +76,13 @@ def gen_unit(unit, outdir=UNITS, repo=None, canaries=True):
     canary = GLOBAL_CANARY.replace("    broadcast use group_field_bool, axiom_val_in_field, axiom_H_shape, lemma_rc_ok;\n", ("    broadcast use %s;\n" % ", ".join(names)) if names else "")
     txt = txt[:idx] + canary + txt[idx:]
     report["global_canary_lines"] = [l0, l0 + canary.count("\n")]
+    # TB-5 vacuity guard: the honest-mode clauses of the builder contracts must not make honest() refutable
+    if re.search(r"uninterp spec fn honest\(\)", txt) and "pub fn split_low_high" in txt:
+        idx = txt.rfind("} // verus!")
+        l1 = txt[:idx].count("\n") + 1
+        hc = HONEST_CANARY
+        txt = txt[:idx] + hc + txt[idx:]
+        report["honest_canary_lines"] = [l1, l1 + hc.count("\n")]
     open(out, "w").write(txt)
     json.dump(report, open(rep, "w"), indent=1)
     return out, report
@@ -222,6 +237,9 @@ def item_of_line(report, line):
     g = report.get("global_canary_lines")
     if g and g[0] <= line <= g[1]:
         return ("gcanary", None)
+    g = report.get("honest_canary_lines")
+    if g and g[0] <= line <= g[1]:
+        return ("hcanary", None)
     for inc in report.get("includes", []):
         a, b = inc["out_lines"]
         if a <= line <= b:
@@ -258,7 +276,7 @@ def analyse_unit(unit, res, report, unit_path):
     """Attribute Verus diagnostics. Returns dict(compile_error, resource, canary_ok, failures=[...])."""
     out = {"compile_error": None, "resource": [], "failures": [], "canaries_expected": 0, "canaries_failed": 0, "other": []}
     lines = open(unit_path).read().splitlines()
-    expected_canaries = 1 + sum(1 for it in report["items"] if it.get("canary_lines"))
+    expected_canaries = 1 + (1 if report.get("honest_canary_lines") else 0) + sum(1 for it in report["items"] if it.get("canary_lines"))
     out["canaries_expected"] = expected_canaries
     seen_canary = set()
     if not res.get("json_ok") or res.get("vir_error"):
@@ -273,6 +291,9 @@ def analyse_unit(unit, res, report, unit_path):
         kinds = [w[0] for w in where]
         if "gcanary" in kinds:
             seen_canary.add("global")
+            continue
+        if "hcanary" in kinds:
+            seen_canary.add("honest")
             continue
         if "canary" in kinds:
             it = [w[1] for w in where if w[0] == "canary"][0]
